@@ -1780,6 +1780,10 @@ class Deb822ParagraphElement(Deb822Element, Deb822ParagraphToStrWrapperMixin, AB
         # type: () -> Deb822ParagraphElement
         return self
 
+    def _add_final_newline_if_missing(self):
+        # type: () -> None
+        raise NotImplementedError  # pragma: no cover
+
     def order_last(self, field):
         # type: (ParagraphKey) -> None
         """Re-order the given field so it is "last" in the paragraph"""
@@ -2095,16 +2099,27 @@ class Deb822NoDuplicateFieldsParagraphElement(Deb822ParagraphElement):
         # type: () -> int
         return len(self._kvpair_elements)
 
+    def _add_final_newline_if_missing(self):
+        # type: () -> None
+        # The last field lacks its newline when it is the last line of a file without a
+        # final newline; anything placed after it would end up on the same line.
+        for last_field_name in reversed(self._kvpair_order):
+            last_kvpair = self._kvpair_elements[cast('_strI', last_field_name)]
+            last_kvpair.value_element.add_final_newline_if_missing()
+            break
+
     def order_last(self, field):
         # type: (ParagraphKey) -> None
         """Re-order the given field so it is "last" in the paragraph"""
         unpacked_field, _, _ = _unpack_key(field, raise_if_indexed=True)
+        self._add_final_newline_if_missing()
         self._kvpair_order.order_last(unpacked_field)
 
     def order_first(self, field):
         # type: (ParagraphKey) -> None
         """Re-order the given field so it is "first" in the paragraph"""
         unpacked_field, _, _ = _unpack_key(field, raise_if_indexed=True)
+        self._add_final_newline_if_missing()
         self._kvpair_order.order_first(unpacked_field)
 
     def order_before(self, field, reference_field):
@@ -2114,6 +2129,7 @@ class Deb822NoDuplicateFieldsParagraphElement(Deb822ParagraphElement):
         The reference field must be present."""
         unpacked_field, _, _ = _unpack_key(field, raise_if_indexed=True)
         unpacked_ref_field, _, _ = _unpack_key(reference_field, raise_if_indexed=True)
+        self._add_final_newline_if_missing()
         self._kvpair_order.order_before(unpacked_field, unpacked_ref_field)
 
     def order_after(self, field, reference_field):
@@ -2124,6 +2140,7 @@ class Deb822NoDuplicateFieldsParagraphElement(Deb822ParagraphElement):
         """
         unpacked_field, _, _ = _unpack_key(field, raise_if_indexed=True)
         unpacked_ref_field, _, _ = _unpack_key(reference_field, raise_if_indexed=True)
+        self._add_final_newline_if_missing()
         self._kvpair_order.order_after(unpacked_field, unpacked_ref_field)
 
     def iter_keys(self):
@@ -2237,6 +2254,14 @@ class Deb822DuplicateFieldsParagraphElement(Deb822ParagraphElement):
             else:
                 self._kvpair_elements[field_name].append(node)
 
+    def _add_final_newline_if_missing(self):
+        # type: () -> None
+        # The last field lacks its newline when it is the last line of a file without a
+        # final newline; anything placed after it would end up on the same line.
+        last_kvpair = self._kvpair_order.tail
+        if last_kvpair is not None:
+            last_kvpair.value_element.add_final_newline_if_missing()
+
     def _nodes_being_relocated(self, field):
         # type: (ParagraphKey) -> Tuple[List[KVPNode], List[KVPNode]]
         key, index, name_token = _unpack_key(field)
@@ -2256,6 +2281,7 @@ class Deb822DuplicateFieldsParagraphElement(Deb822ParagraphElement):
         """Re-order the given field so it is "last" in the paragraph"""
         nodes, nodes_being_relocated = self._nodes_being_relocated(field)
         assert len(nodes_being_relocated) == 1 or len(nodes) == len(nodes_being_relocated)
+        self._add_final_newline_if_missing()
 
         kvpair_order = self._kvpair_order
         for node in nodes_being_relocated:
@@ -2277,6 +2303,7 @@ class Deb822DuplicateFieldsParagraphElement(Deb822ParagraphElement):
         """Re-order the given field so it is "first" in the paragraph"""
         nodes, nodes_being_relocated = self._nodes_being_relocated(field)
         assert len(nodes_being_relocated) == 1 or len(nodes) == len(nodes_being_relocated)
+        self._add_final_newline_if_missing()
 
         kvpair_order = self._kvpair_order
         # Use "reversed" to preserve the relative order of the nodes assuming a bulk reorder
@@ -2301,6 +2328,7 @@ class Deb822DuplicateFieldsParagraphElement(Deb822ParagraphElement):
         The reference field must be present."""
         nodes, nodes_being_relocated = self._nodes_being_relocated(field)
         assert len(nodes_being_relocated) == 1 or len(nodes) == len(nodes_being_relocated)
+        self._add_final_newline_if_missing()
         # For "before" we always use the "first" variant as reference in case of doubt
         _, reference_nodes = self._nodes_being_relocated(reference_field)
         reference_node = reference_nodes[0]
@@ -2325,6 +2353,7 @@ class Deb822DuplicateFieldsParagraphElement(Deb822ParagraphElement):
         """
         nodes, nodes_being_relocated = self._nodes_being_relocated(field)
         assert len(nodes_being_relocated) == 1 or len(nodes) == len(nodes_being_relocated)
+        self._add_final_newline_if_missing()
         _, reference_nodes = self._nodes_being_relocated(reference_field)
         # For "after" we always use the "last" variant as reference in case of doubt
         reference_node = reference_nodes[-1]
@@ -2718,6 +2747,10 @@ class Deb822FileElement(Deb822Element):
         # Note the special case where the file ends on a comment; here we insert a whitespace too
         # to be sure.  Otherwise we would have to check that there is an empty line before that
         # comment and that is too much effort.
+        if isinstance(tail_element, Deb822ParagraphElement):
+            # The paragraph might be the end of a file without a final newline, in which
+            # case the separator below would merely terminate its last line.
+            tail_element._add_final_newline_if_missing()
         if tail_element and not isinstance(tail_element, Deb822WhitespaceToken):
             self._token_and_elements.append(self._set_parent(Deb822WhitespaceToken('\n')))
         self._token_and_elements.append(self._set_parent(paragraph))
